@@ -9,6 +9,7 @@ import (
 	"path/filepath"
 	"strconv"
 	"strings"
+	"unicode/utf8"
 
 	"golang.org/x/tools/go/ssa"
 )
@@ -598,6 +599,14 @@ func init() {
 	stubs["strings.Trim"] = conc2s(strings.Trim)
 	stubs["strings.TrimLeft"] = conc2s(strings.TrimLeft)
 	stubs["strings.TrimRight"] = conc2s(strings.TrimRight)
+	stubs["unicode/utf8.RuneCountInString"] = func(e *Exec, st *State, fn *ssa.Function, args []Val, where string) Val {
+		a, ok := concArgs(e, args)
+		if !ok {
+			e.unsupported(st, "RuneCountInString on symbolic string at "+where)
+			return &Poison{Why: "RuneCountInString"}
+		}
+		return e.F.IntConst(big.NewInt(int64(utf8.RuneCountInString(a[0]))), types.Typ[types.Int])
+	}
 	stubs["strings.Index"] = func(e *Exec, st *State, fn *ssa.Function, args []Val, where string) Val {
 		a, ok := concArgs(e, args)
 		if !ok {
